@@ -26,7 +26,7 @@ FLOORS = {"quick": {"dt.accessors": 300000, "dt.eq_hash": 20000, "dt.pairs": 100
           "thorough": {"dt.accessors": 3 * 10**6, "dt.eq_hash": 200000, "dt.pairs": 10**6, "dt.order_instants": 500000, "dt.sub": 100000,
                        "types": 500000, "date.accessors": 200000, "date.pairs": 50000, "time.accessors": 200000, "time.pairs": 50000}}
 REQUIRED_HOOKS = []
-TECHNIQUE = "differential runtime monitor against the native twin (same fields/fold/tzinfo) for every stdlib accessor and operator, plus instant-order and return-type checks"
+TECHNIQUE = "differential runtime monitor against the native twin (same fields/fold/tzinfo) for every stdlib accessor and operator, plus instant-order and return-type checks; astimezone() into stdlib fixed/named, user-defined DST, zoneinfo and dateutil targets compared by full views; shards run under rotating process-local zones (TZ) for naive values"
 LEVEL_TEXT = ("every listed accessor/operator is evaluated on the pendulum object and on its native twin and compared; values sit on and "
               "around every transition of every zone in both folds, pairs include same-zone, cross-zone and pendulum x native in both "
               "orders; held on what was observed")
